@@ -125,7 +125,8 @@ class Stream:
             encode_options(
                 stream_types=self.stream_types,
                 params=self.options.params,
-                lookup_preset=self.options.lookup_preset,
+                # the tables the ids on the wire come from
+                lookup_preset=self.encoder.lookup_preset,
             )
         )
 
